@@ -153,21 +153,50 @@ def ref_platform_ok(node, platform, all_platforms):
     return (not node["target"]) or all_platforms or not node["platforms"] or platform in node["platforms"]
 
 
-def ref_select(req):
+def resolve_alias(nodes, es, i):
+    """the target an alias (chain) points to: an alias has exactly one dependency, its `actual`"""
+    dep = {}
+    for a, b in es:
+        dep.setdefault(b, a)
+    seen = set()
+    while not nodes[i]["target"] and i in dep and i not in seen:
+        seen.add(i)
+        i = dep[i]
+    return i
+
+
+def ref_node_selected(nodes, es, i, preds, tags, exclude, typ, platform, all_platforms, alias_mode="resolved"):
+    """does node i match the invocation?  -> (matches filters, matches platform)
+    A target: type, pattern, tag, exclude-tag, platform. An alias ("when you build an alias, grog transparently builds the aliased
+    target"): its own label must match the patterns and the target it points to must pass the type / tag / exclude-tag / platform
+    filters — otherwise `--exclude-tag=slow //...` would run a `slow` target that merely has an alias.
+    alias_mode="pattern-only" is the behaviour of the tree before the fix (an alias matched by pattern alone)."""
+    n = nodes[i]
+    if n["target"] or alias_mode == "pattern-only":
+        return ref_matches_filters(n, preds, tags, exclude, typ), ref_platform_ok(n, platform, all_platforms)
+    pat_ok = (not preds) or any(f(n["pkg"], n["name"]) for f in preds)
+    t = nodes[resolve_alias(nodes, es, i)]
+    if not t["target"]:
+        return pat_ok, True
+    return pat_ok and ref_matches_filters(t, [], tags, exclude, typ), ref_platform_ok(t, platform, all_platforms)
+
+
+def ref_select(req, alias_mode="resolved"):
     """-> ('ok', selected set, count, skipped) | ('platform',) | None when a pattern is outside the reference"""
     preds = [ref_pattern(p, req["cur"]) for p in req["patterns"]]
     if any(f is None for f in preds):
         return None
     nodes, es = req["nodes"], [tuple(e) for e in req["edges"]]
-    m = [ref_matches_filters(n, preds, req["tags"], req["exclude"], req["type"]) for n in nodes]
+    mp = [ref_node_selected(nodes, es, i, preds, req["tags"], req["exclude"], req["type"], req["platform"], req["all_platforms"], alias_mode)
+          for i in range(len(nodes))]
     p = [ref_platform_ok(n, req["platform"], req["all_platforms"]) for n in nodes]
-    roots = [i for i in range(len(nodes)) if m[i] and p[i]]
+    roots = [i for i in range(len(nodes)) if mp[i][0] and mp[i][1]]
     sel = set(roots)
     for r in roots:
         sel |= reach(es, r, forward=False)
     if any(not p[i] for i in sel):
         return ("platform",)
-    return ("ok", sel, sum(1 for i in sel if nodes[i]["target"]), sum(1 for i in range(len(nodes)) if m[i] and not p[i]))
+    return ("ok", sel, sum(1 for i in sel if nodes[i]["target"]), sum(1 for i in range(len(nodes)) if mp[i][0] and not mp[i][1]))
 
 
 def label_str(n):
